@@ -1,0 +1,38 @@
+//go:build verif
+
+package ct
+
+import "io"
+
+// Exported wrappers for the verification harness (property C16). Build tag verif only.
+
+// ZVSetAllowNonCompliantKeys sets allowVerificationWithNonCompliantKeys and returns the previous value.
+func ZVSetAllowNonCompliantKeys(b bool) bool {
+	old := allowVerificationWithNonCompliantKeys
+	allowVerificationWithNonCompliantKeys = b
+	return old
+}
+
+func ZVReadUint(r io.Reader, numBytes int) (uint64, error) { return readUint(r, numBytes) }
+
+func ZVReadVarBytes(r io.Reader, numLenBytes int) ([]byte, error) {
+	return readVarBytes(r, numLenBytes)
+}
+
+func ZVReadASN1CertList(r io.Reader, totalLenBytes int, elementLenBytes int) ([]ASN1Cert, error) {
+	return readASN1CertList(r, totalLenBytes, elementLenBytes)
+}
+
+func ZVWriteUint(w io.Writer, value uint64, numBytes int) error { return writeUint(w, value, numBytes) }
+
+func ZVWriteVarBytes(w io.Writer, value []byte, numLenBytes int) error {
+	return writeVarBytes(w, value, numLenBytes)
+}
+
+func ZVMarshalDigitallySignedHere(ds DigitallySigned, here []byte) ([]byte, error) {
+	return marshalDigitallySignedHere(ds, here)
+}
+
+func ZVVerifySignature(s SignatureVerifier, data []byte, sig DigitallySigned) error {
+	return s.verifySignature(data, sig)
+}
